@@ -47,6 +47,18 @@ CHECKS = {
          'explicit-state BFS over histories without repack through two handles; before/after comparison of every pack file and index row on every transition',
          'Every transition of the bounded history space (small and default pack_size_target) is checked for: referenced bytes unchanged, no shrinking below the last referenced byte, closed packs byte-identical, consecutive numbering, every non-final pack full.',
          'Depth/deviation bounded; 4-content universe.', '5 C13, 3 E1'),
+ 'C11': ('seqx', 'model_checking',
+         'explicit-state BFS with a phased alphabet: bounded build phase, then delete_objects(S) for every subset S, then repack(mode) for every mode',
+         'From every state of the build phase (all storage forms incl. synthesised stray duplicates) all 32 subsets of present/absent keys (+ a repeated key) are deleted and all four repack modes applied; return value, views (battery per distinct state), leftover duplicates and exact pack layout after repack are checked.',
+         'Build phase depth-bounded; duplicates synthesised by the harness (Windows-only producer).', '5 C11, 3 E1'),
+ 'C12': ('seqx', 'model_checking',
+         'explicit-state BFS (validate on every distinct state) + exhaustive single-damage enumeration (every bit flip / truncation / index-field perturbation) on every state of a smaller BFS',
+         '(a) validate() must be clean on every distinct state of the C02-style search; (b) on every state of a compact search every single damage is applied in place and validate() must not be clean whenever an independent reader finds some object harmed.',
+         'Single damages only; ground truth resolves objects index-first like the library; depth-bounded.', '5 C12'),
+ 'C18': ('seqx', 'model_checking',
+         'explicit-state BFS with a /proc/self/fd census monitor on every transition (+ repeat-the-operation differential, + after close); open-file monitor over a request lattice; tracemalloc budget over a size lattice',
+         'Descriptor half: exhaustive over bounded histories. Open-file half: complete product of container shapes and request styles under an interposed open/close monitor. Memory half: enumeration (exploration level) of streaming paths x sizes with a peak budget and a no-growth criterion.',
+         'GC disabled during the census; memory half covers sizes 1-16 (48) MiB only.', '5 C18'),
 }
 
 NOT_YET = {
